@@ -55,8 +55,11 @@ type Opts struct {
 	ServerCfg *tls.Config
 	Script    *tls.VerifServerScript // nil = honest scripted server
 	Prepare   func(*tls.UConn) error // optional, after UClient and before BuildHandshakeState
-	Timeout   time.Duration          // per side; default 5 s
-	NoAppData bool
+	// AfterBuild: optional, after BuildHandshakeState (e.g. edit uc.Extensions, inject a session). BuildHandshakeState is then
+	// called once more (it re-applies the extensions and re-marshals, as Handshake itself would) before the view is captured.
+	AfterBuild func(*tls.UConn) error
+	Timeout    time.Duration // per side; default 5 s
+	NoAppData  bool
 }
 
 // Result of one loopback handshake.
@@ -181,6 +184,11 @@ func Run(o Opts) *Result {
 	}
 	if res.BuildErr == nil {
 		res.BuildErr = uc.BuildHandshakeState()
+	}
+	if res.BuildErr == nil && o.AfterBuild != nil {
+		if res.BuildErr = o.AfterBuild(uc); res.BuildErr == nil {
+			res.BuildErr = uc.BuildHandshakeState()
+		}
 	}
 	if res.BuildErr != nil {
 		rc.Close()
